@@ -51,3 +51,18 @@ Fixpoint gc_loop_l (fuel : nat) (sp : N) (limit : nat) (e : list N) (ys : list i
   end.
 Definition gc_resolve_range_l (fuel : nat) (sp : N) (limit : nat) (s e : list N) (ys : list iter_layouts) (st : store)
   : gc_result * list iter_oracle := gc_loop_l fuel sp limit e ys st s.
+
+(* a pass that STOPS after n iterations (an RPC answered with an error, the context cancelled, a worker's error cancelling
+   the others): the store and the cursor it leaves behind *)
+Fixpoint gc_steps (n : nat) (sp : N) (limit : nat) (e : list N) (os : list iter_oracle) (st : store) (key : list N)
+  : option (store * list N) :=
+  match n, os with
+  | O, _ => Some (st, key)
+  | _, [] => Some (st, key)
+  | S m, o :: os' =>
+      match gc_step sp limit e o st key with
+      | StepBad => None
+      | StepDone st' => Some (st', key)
+      | StepNext st' key' => gc_steps m sp limit e os' st' key'
+      end
+  end.
